@@ -292,7 +292,20 @@ class C03(Prop):
                 yield {"calls": [{"m": "send_json", "kwargs": {"text": ch + "z"}},
                                  {"m": "close", "code": 1000, "reason": ["s", ch + "bye" + ch]}],
                        "keys": FIXED_KEYS[3:4] * 6, "deflate": False}
+        def deflate_orders():
+            # under permessage-deflate what a message compresses to depends on the messages before it (and an empty
+            # one is a corner of its own): every ordered pair of length classes, and every pair around an empty message
+            lens = [0, 1, 2, 5, 6, 125, 126, 127, 1000, 65535, 65536, 70000]
+            for cfg in (True, {"sb": 15, "cb": 15, "snct": False, "cnct": True}, {"sb": 9, "cb": 9, "snct": True, "cnct": False}):
+                for kind in ("send_text", "send_binary"):
+                    for a in lens:
+                        for b in lens:
+                            for seq in ((a, b), (a, 0, b)):
+                                yield {"calls": [{"m": kind, "arg": (["ascii", n, n + i] if kind == "send_text" else
+                                                                     ["rep", n, n + i])} for i, n in enumerate(seq)],
+                                       "keys": FIXED_KEYS[:1] * 6, "deflate": cfg}
         return [Enumeration("length_sweep_x_4_keys", sweep, exhaustive=True), after_every_prelude(battery),
+                Enumeration("deflate_message_orders", deflate_orders, exhaustive=True),
                 Enumeration("one_complete_frame_per_call_while_another_thread_writes", scheduled, exhaustive=True),
                 Enumeration("special_code_points_round_trip", special_texts, exhaustive=True),
                 Enumeration("unencodable_text_is_refused", unencodable_texts, exhaustive=True)]
